@@ -582,6 +582,13 @@ def emit(out_file=OUT_FILE, src_root=None):
             bad = {k: iv.get(k) for k, v in want.items() if iv.get(k) != v}
             if bad:
                 raise Untranslatable(defs["__init__"], f"EvolutionaryAlgorithm.__init__ initialises the loop state differently: {bad}")
+            order = list(iv.keys())
+            if order.index("_sign") > order.index("_aim"):
+                raise Untranslatable(defs["__init__"], "EvolutionaryAlgorithm.__init__ computes _aim before _sign is set")
+            cls_level = [t.id for n in classes[cls].body if isinstance(n, (ast.Assign, ast.AnnAssign)) and getattr(n, "value", None) is not None
+                         for t in (n.targets if isinstance(n, ast.Assign) else [n.target]) if isinstance(t, ast.Name)]
+            if set(cls_level) & {"_sign", "_aim", "_calls"}:
+                raise Untranslatable(classes[cls], f"class-level defaults for loop state: {cls_level}")
         for m in METHODS[cls]:
             if m not in defs:
                 failed.append((f"{cls}.{m}", "method not found"))
